@@ -68,6 +68,11 @@ WrapfV(e, parts, sl) ==
   ELSE LET p == IF NoFormat(parts) THEN e ELSE W1("withPrefix", PartsText(parts, sl), <<>>, e)
        IN WStack(AddSecondaries(p, ErrRefs(parts), sl))
 
+\* context tag values as GetContextTags shows them (strings): a value-less tag
+\* reads "", a value marked safe reads as itself, an integer as its digits
+TagStr(x) == IF x = <<"NILV">> THEN <<>> ELSE IF x # <<>> /\ x[1] = "SAFEV" THEN Tail(x) ELSE x
+TagStrs(a) == [i \in 1..Len(a) |-> IF i % 2 = 0 THEN TagStr(a[i]) ELSE a[i]]
+
 NamedDomain(n) == <<"L_domain", "QT">> \o n \o <<"QT">>
 
 RECURSIVE DropNils(_)
@@ -105,7 +110,7 @@ Build(st, sl, rg) ==
     [] st.op = "WithTelemetry" -> W1("withTelemetry", <<>>, st.a, e)
     [] st.op = "WithDomain" -> W1("withDomain", NamedDomain(st.s), <<>>, e)
     [] st.op = "WithIssueLink" -> W1("withIssueLink", <<>>, st.a, e)
-    [] st.op = "WithContextTags" -> IF st.a = <<>> THEN e ELSE W1("withContext", <<>>, st.a, e)
+    [] st.op = "WithContextTags" -> IF st.a = <<>> THEN e ELSE W1("withContext", <<>>, TagStrs(st.a), e)
     [] st.op = "WithAssertionFailure" -> W1("withAssertionFailure", <<>>, <<>>, e)
     [] st.op = "Mark"       -> MarkV(e, x, rg)
     [] st.op = "WithSecondaryError" -> Secondary(e, x)
@@ -177,8 +182,9 @@ SSafeOps   == {"New", "Wrap", "WithMessage", "WithDomain", "HandledInDomain", "O
 StepU(st, sl) ==
   (IF st.op \in SUnsafeOps THEN WordsIn(st.s) ELSE {})
   \cup PartsU(st.parts)
-  \cup (IF st.op \in {"GoWrap", "ULeaf"} THEN WordsInAll(st.a) ELSE {})
-  \cup (IF st.op = "WithContextTags" THEN UNION {WordsIn(st.a[i]) : i \in Even(st.a)} ELSE {})
+  \cup (IF st.op = "GoWrap" \/ (st.op = "ULeaf" /\ st.a[1] # <<"uSafeDetLeaf">>) THEN WordsInAll(st.a) ELSE {})
+  \cup (IF st.op = "WithContextTags"
+        THEN UNION {WordsIn(st.a[i]) : i \in {j \in Even(st.a) : st.a[j] = <<>> \/ st.a[j][1] # "SAFEV"}} ELSE {})
   \cup (IF st.op \in {"OsPathError", "OsLinkError"} THEN UNION {WordsIn(st.a[i]) : i \in 2..Len(st.a)} ELSE {})
   \cup (IF st.op = "Mark" /\ Len(st.src) = 2 /\ ~IsNil(sl[st.src[1]]) /\ ~IsNil(sl[st.src[2]])
         THEN WordsIn(Text(sl[st.src[2]])) ELSE {})
@@ -187,7 +193,11 @@ StepS(st) ==
   \cup PartsS(st.parts)
   \cup (IF st.op \in {"WithTelemetry", "WithIssueLink", "Unimplemented", "HandledInDomainWithMessage"}
         THEN WordsInAll(st.a) ELSE {})
-  \cup (IF st.op = "WithContextTags" THEN UNION {WordsIn(st.a[i]) : i \in Odd(st.a)} ELSE {})
+  \cup (IF st.op = "WithContextTags"
+        THEN UNION {WordsIn(st.a[i]) : i \in Odd(st.a) \cup {j \in Even(st.a) : st.a[j] # <<>> /\ st.a[j][1] = "SAFEV"}}
+        ELSE {})
+  \* (what a type returns from SafeDetails() is safe by its own declaration)
+  \cup (IF st.op = "ULeaf" /\ st.a[1] = <<"uSafeDetLeaf">> THEN WordsInAll(Tail(st.a)) ELSE {})
   \cup (IF st.op \in {"OsPathError", "OsLinkError"} /\ Len(st.a) >= 1 THEN WordsIn(st.a[1]) ELSE {})
 \* some string argument of the step is not regular text (C01, C09, C10 quantify over regular text)
 StepH(st) ==
